@@ -152,7 +152,7 @@ def oracle_c16(impl_lines):
                         cv[k] = {"w": int(t[3]), "h": int(t[4]), "grid": {}}
                     elif t[2] == "copy":
                         src = cv[t[3]]
-                        cv[k] = {"w": src["w"], "h": src["h"], "grid": dict(src["grid"])}
+                        cv[k] = {"w": src["w"], "h": src["h"], "grid": dict(src["grid"])}    # handles are not copied
                     elif t[2] == "set":
                         cv[k]["grid"][(int(t[3]), int(t[4]))] = " ".join(t[5:])
                     elif t[2] == "fill":
@@ -161,6 +161,11 @@ def oracle_c16(impl_lines):
                     elif t[2] == "iterset":
                         i = int(t[3])
                         cv[k]["grid"][(i % cv[k]["w"], i // cv[k]["w"])] = " ".join(t[4:])
+                    elif t[2] == "hold":
+                        cv[k]["held"] = (int(t[3]), int(t[4]))
+                    elif t[2] == "heldset":
+                        # a handle taken earlier still denotes that cell of THAT canvas
+                        cv[k]["grid"][cv[k]["held"]] = " ".join(t[4:])
                     elif t[2] == "resize":
                         nw, nh = int(t[3]), int(t[4])
                         c = cv[k]
